@@ -350,12 +350,15 @@ func parseNumber(b []byte, z *fauxUnion, preferSignedInt bool) (err error) {
 		f, ok = parseUint64_simple(b)
 	}
 
+	if ok && neg && chkOvf.Uint2Int(f, neg) {
+		// a negative integer literal below math.MinInt64: read it as a float64,
+		// like the literals whose magnitude does not fit a uint64 either
+		ok = false
+	}
+
 	if ok {
 		if neg {
 			z.v = valueTypeInt
-			if chkOvf.Uint2Int(f, neg) {
-				return strconvParseErr(b, "ParseInt")
-			}
 			z.i = -int64(f)
 		} else if preferSignedInt {
 			z.v = valueTypeInt
